@@ -8,7 +8,7 @@ Max2(a, b) == IF a >= b THEN a ELSE b
 TraceInit == cbase = <<>> /\ cclass = "other" /\ cacc = "unknown" /\ cden = <<>> /\ cdk = FALSE /\ l = 1
 TSession == IsEvent("session") /\ UNCHANGED cmvars
 TBegin   == IsEvent("cm_begin") /\ CmBeginCore(Ev.class, Ev.base, Ev.declared)
-TSubmit  == IsEvent("cm_submit") /\ ~Ev.panic /\ CmSubmitCore(Ev.ep, Ev.ok, Ev.nopool, Ev.post, Ev.unchanged)
+TSubmit  == IsEvent("cm_submit") /\ ~Ev.panic /\ CmSubmitCoreB(Ev.ep, Ev.ok, Ev.nopool, Ev.post, Ev.unchanged, IF Ev.cleared THEN <<>> ELSE cbase)
 TraceProper == TSession \/ TBegin \/ TSubmit
 NextSession(i) ==
   IF \E j \in (i+1)..Len(Trace) : Trace[j].ev = "session"
